@@ -106,52 +106,18 @@ theorem display_round_trip_general (env : Env) (p : Parsed) (hc : Canon env p)
     (hcov : ∀ a, p.ansi.get a = true → shown a = true) : RoundTrips env p :=
   DeltaStyle.display_round_trip_general env p hc hcov
 
-/-- Which attributes `Display` can print. **Unchanged tree: every one except `hidden`.**
-(After `fix: print hidden in Display for Style` this becomes `∀ a, shown a = true`.) -/
-theorem display_shows_all_but_hidden : ∀ a : Sgr.Attr, shown a = true ↔ a ≠ .hidden := by
-  intro a; cases a <;> decide
-
-/-- The round trip holds on the image of `parse` for styles without `hidden`. -/
-theorem display_round_trip_of_not_hidden (env : Env) (ho : OracleOk env) (s : List Char) (p : Parsed)
-    (h : parseAnsi env none s = .ok p) (hh : p.ansi.hidden = false) : RoundTrips env p := by
-  apply display_round_trip_general env p (parseAnsi_canon env ho s p h)
-  intro a ha
-  rw [display_shows_all_but_hidden]
-  intro hEq
-  subst hEq
-  simp [Sgr.Style.get, hh] at ha
-
-example : parseAnsi ⟨true, fun _ _ _ => 16⟩ none "bold ul 12 \"#102030\"".toList =
-    .ok { ansi := { fg := some (.fixed 12), bg := some (.rgb 16 32 48), bold := true, underline := true } } := by
-  decide
-
-/-- **The unconditional round trip is false on the unchanged tree** (defect #14): `hidden red` is
-in the image of `parse`, is printed as `red`, and `red` renders without SGR 8. -/
-theorem display_round_trip_fails_for_hidden :
-    ∃ (env : Env) (s : List Char) (p : Parsed), OracleOk env ∧ parseAnsi env none s = .ok p ∧
-      ¬ RoundTrips env p := by
-  refine ⟨⟨true, fun _ _ _ => 16⟩, "hidden red".toList,
-    { ansi := { fg := some (.basic 1), hidden := true } }, fun _ _ _ => ⟨by simp, by simp⟩, by decide, ?_⟩
-  rintro ⟨t, q, hd, hp, hs⟩
-  have h1 : display (ofParsed { ansi := { fg := some (.basic 1), hidden := true } }) = some "red".toList := by
-    decide
-  rw [h1] at hd
-  cases hd
-  have h2 : parseAnsi ⟨true, fun _ _ _ => 16⟩ none "red".toList = .ok { ansi := { fg := some (.basic 1) } } := by
-    decide
-  rw [h2] at hp
-  cases hp
-  have := hs.2 rfl
-  exact absurd this (by decide)
-
-/- After the repair (`Display` prints `hidden`) replace the two theorems above by:
-
+/-- Every attribute has a word in `impl Display for Style` (after `fix: print hidden`). -/
 theorem display_shows_all : ∀ a : Sgr.Attr, shown a = true := by intro a; cases a <;> decide
 
+/-- **`--show-config` round trip**: every style in the image of `parse` is printed by `Display` to
+a string that parses back to a style rendering the same. -/
 theorem display_round_trip (env : Env) (ho : OracleOk env) (s : List Char) (p : Parsed)
     (h : parseAnsi env none s = .ok p) : RoundTrips env p :=
   display_round_trip_general env p (parseAnsi_canon env ho s p h) (fun a _ => display_shows_all a)
 
-(`display_round_trip_fails_for_hidden` then no longer checks — its witness round-trips.) -/
+example : parseAnsi ⟨true, fun _ _ _ => 16⟩ none "hidden bold ul 12 \"#102030\"".toList =
+    .ok { ansi := { fg := some (.fixed 12), bg := some (.rgb 16 32 48), bold := true, underline := true,
+                    hidden := true } } := by
+  decide
 
 end C12
